@@ -7,11 +7,13 @@ package main
 
 import (
 	"bufio"
+	"bytes"
 	"context"
 	"flag"
 	"fmt"
 	"os"
 	"os/exec"
+	"os/signal"
 	"path/filepath"
 	"sort"
 	"strconv"
@@ -46,7 +48,7 @@ type fsHarness struct {
 	stem, ext, decoy string
 	divergedBy       map[string]bool
 	decoys           []string // files of other programs that share this sink's prefix but not its name shape
-	skipRest         bool // the case can no longer be followed (a call straddled MaxDuration): drop its remaining operations
+	skipRest         bool     // the case can no longer be followed (a call straddled MaxDuration): drop its remaining operations
 }
 
 func (h *fsHarness) plainName() string { return h.stem + h.ext }
@@ -640,6 +642,157 @@ func fsDirOnDemand(h *fsHarness, p *prng, rounds int) {
 	}
 }
 
+// fsChildFsizeMain runs in a child process whose file-size limit is lowered (RLIMIT_FSIZE, SIGXFSZ
+// ignored): a write(2) that crosses the limit writes what fits and fails with EFBIG -- the partially
+// failing write of a full disk or a quota. It prints the ids FileSink.Process acknowledged.
+func fsChildFsizeMain(args []string) {
+	dir, limit, tso, size, count := args[0], atoi(args[1]), args[2] == "1", atoi(args[3]), atoi(args[4])
+	signal.Ignore(syscall.SIGXFSZ)
+	var rl syscall.Rlimit
+	if syscall.Getrlimit(syscall.RLIMIT_FSIZE, &rl) != nil {
+		fmt.Println("skip")
+		return
+	}
+	rl.Cur = uint64(limit)
+	if syscall.Setrlimit(syscall.RLIMIT_FSIZE, &rl) != nil {
+		fmt.Println("skip")
+		return
+	}
+	sink := &eventlogger.FileSink{Path: dir, FileName: "ev.log", MaxBytes: 10 * limit, TimestampOnlyOnRotate: tso}
+	w := bufio.NewWriter(os.Stdout)
+	for id := 1; id <= count; id++ {
+		e := &eventlogger.Event{Type: "t", Formatted: map[string][]byte{"json": eventBytes(id, size)}}
+		if _, err := sink.Process(context.Background(), e); err == nil {
+			fmt.Fprintf(w, "%d\n", id)
+		} else {
+			fmt.Fprintf(w, "-%d\n", id)
+		}
+		w.Flush()
+	}
+}
+
+// fsShortWrite: "success only after writing exactly the stored bytes, once and contiguously" / "every
+// acknowledged event is present exactly once", when a write(2) is cut short by the file-size limit: the
+// sink may report an error, or retry after reopening -- an acknowledged event is whole in one file
+func fsShortWrite(h *fsHarness, p *prng, rounds int) {
+	self, _ := os.Executable()
+	for r := 0; r < rounds; r++ {
+		h.st.Cases++
+		dir := filepath.Join(h.base, fmt.Sprintf("short%d", r))
+		os.RemoveAll(dir)
+		size := 3000 + p.intn(14000)
+		limit := size*2 + 1 + p.intn(size-1) // the third event of a file crosses the limit
+		tso := p.intn(3) == 0
+		count := 5 + p.intn(4)
+		cmd := exec.Command(self, "filesink-child-fsize", dir, strconv.Itoa(limit), map[bool]string{true: "1", false: "0"}[tso], strconv.Itoa(size), strconv.Itoa(count))
+		outB, _ := cmd.Output()
+		lines := strings.Fields(string(outB))
+		if len(lines) == 1 && lines[0] == "skip" {
+			h.st.hit("short-write:skipped")
+			continue
+		}
+		ents, _ := os.ReadDir(dir)
+		var files [][]byte
+		for _, e := range ents {
+			b, _ := os.ReadFile(filepath.Join(dir, e.Name()))
+			files = append(files, b)
+		}
+		acks, refused := 0, 0
+		for _, l := range lines {
+			id := atoi(l)
+			if id < 0 {
+				refused++
+				continue
+			}
+			acks++
+			want := eventBytes(id, size)
+			whole := 0
+			for _, b := range files {
+				whole += bytes.Count(b, want)
+			}
+			if whole != 1 {
+				h.oracle("C13 FileSink.Process reported success for event %d (%d bytes; file-size limit %d, timestamp-only=%v: the first write(2) was cut short) but its bytes are in one piece in %d places of the sink's files", id, size, limit, tso, whole)
+				h.oracle("C08 acknowledged event %d is present %d times in one piece after a write(2) that was cut short by the file-size limit (%d-byte events, limit %d)", id, whole, size, limit)
+				break
+			}
+		}
+		h.st.hit(fmt.Sprintf("short-write:acked=%d", acks))
+		if refused > 0 {
+			h.st.hit("short-write:some-refused")
+		}
+		h.st.Ops += len(lines)
+		os.RemoveAll(dir)
+	}
+}
+
+// fsWriteFault: the sink's file is a symbolic link to /dev/full: open, stat and close work, every
+// write(2) fails. Process must not report success for an event that is in no file; once the fault is
+// gone (link removed, Reopen) the files hold exactly the acknowledged events.
+func fsWriteFault(h *fsHarness, p *prng, rounds int) {
+	if _, err := os.Stat("/dev/full"); err != nil {
+		h.st.hit("write-fault:skipped")
+		return
+	}
+	for r := 0; r < rounds; r++ {
+		h.st.Cases++
+		dir := filepath.Join(h.base, fmt.Sprintf("fault%d", r))
+		os.RemoveAll(dir)
+		os.MkdirAll(dir, 0o700)
+		if os.Symlink("/dev/full", filepath.Join(dir, "ev.log")) != nil {
+			continue
+		}
+		sink := &eventlogger.FileSink{Path: dir, FileName: "ev.log", TimestampOnlyOnRotate: true}
+		if p.intn(2) == 0 {
+			sink.MaxBytes, sink.MaxFiles = 200, 3
+		}
+		var acked []int
+		write := func(id int) error {
+			_, err := sink.Process(context.Background(), &eventlogger.Event{Type: "t", Formatted: map[string][]byte{"json": eventBytes(id, 20+p.intn(30))}})
+			if err == nil {
+				acked = append(acked, id)
+			}
+			return err
+		}
+		nFault := 1 + p.intn(3)
+		for id := 1; id <= nFault; id++ {
+			if write(id) == nil {
+				h.oracle("C08 FileSink.Process reported success for event %d while every write(2) to its file fails (ENOSPC): the event is in no file", id)
+				h.oracle("C13 FileSink.Process reported success for event %d although no write of its bytes succeeded (both attempts failed with ENOSPC)", id)
+			}
+		}
+		os.Remove(filepath.Join(dir, "ev.log"))
+		if err := sink.Reopen(); err != nil {
+			h.oracle("C15 Reopen after the faulty file was removed failed: %v", err)
+			continue
+		}
+		for id := nFault + 1; id <= nFault+3; id++ {
+			if err := write(id); err != nil {
+				h.oracle("C08 write %d after the fault was repaired and the sink reopened failed: %v", id, err)
+			}
+		}
+		hh := &fsHarness{dir: dir, st: h.st, stem: "ev", ext: ".log"}
+		fl, bad := hh.list()
+		if bad != "" {
+			h.oracle("C08 after a write fault: %s", bad)
+			continue
+		}
+		seen := map[int]int{}
+		for _, f := range fl {
+			for _, id := range f.ids {
+				seen[id]++
+			}
+		}
+		for _, a := range acked {
+			if seen[a] != 1 {
+				h.oracle("C08 acknowledged event %d present %d times after a write fault", a, seen[a])
+			}
+		}
+		h.st.hit("write-fault:rounds")
+		h.st.Ops += nFault + 3
+		os.RemoveAll(dir)
+	}
+}
+
 func fsKill(h *fsHarness, p *prng, rounds int) {
 	self, _ := os.Executable()
 	for r := 0; r < rounds; r++ {
@@ -753,6 +906,8 @@ func filesinkMain(args []string) {
 		fsConcurrent(h, p, *conc)
 		fsKill(h, p, *kill)
 		fsDirOnDemand(h, p, 6)
+		fsWriteFault(h, p, 6)
+		fsShortWrite(h, p, 4)
 	}
 	o.close()
 	os.RemoveAll(h.base)
